@@ -50,3 +50,12 @@ pub fn env() -> &'static Env {
     Env { dp, sub, publ }
   })
 }
+
+/// `no_key::DataReader` implements `StatusEvented` with a crate-private type in the trait's
+/// parameters, so `try_recv_status` cannot be named from another crate. This forwards it.
+pub fn nokey_reader_try_recv_status<D: 'static, DA: crate::dds::adapters::no_key::DeserializerAdapter<D> + 'static>(
+  r: &crate::dds::no_key::DataReader<D, DA>,
+) -> Option<crate::DataReaderStatus> {
+  use crate::StatusEvented;
+  r.try_recv_status()
+}
